@@ -38,10 +38,10 @@ PROPS['C09'] = dict(level='proof', steps=[V('stream'), K('kani_png_row_of_two'),
                 text='PNG predictor decoding equals the PNG 9.2 definition, ASCII85 decoding equals ISO 7.4.3, predictor dispatch and geometry, and the Length / Filter / DecodeParms bookkeeping of new, set_content, set_plain_content, compress, decompress, for every input (Verus).',
                 note='flate2/weezl assumed; allocation within the granted bound assumed to succeed')
 
-PROPS['C16'] = dict(level='proof', steps=[E3('c16-text', complete=True), E3('c16-strings')],
+PROPS['C16'] = dict(level='proof', steps=[V('resources'), E3('c16-text', complete=True), E3('c16-strings')],
                 title='Text strings and one-byte encodings round-trip text',
-                technique='complete enumeration of the finite domains on the real code (all Unicode scalar values; 5 tables x 256 bytes) + bounded strings',
-                text='every clause over a finite domain is decided by complete enumeration on the real functions: all 1 112 064 scalar values through text_string/decode_text_string, all 5 x 256 table entries (decode total, re-encode stable, published WinAnsi/MacRoman/PDFDoc values); multi-character strings are a bounded family; text extraction through a saved file is not covered here.',
+                technique='complete enumeration of the finite domains on the real code (all Unicode scalar values; 5 tables x 256 bytes) + bounded strings; Verus contract on Document::get_page_fonts (which Resources dictionaries are in effect for a page)',
+                text='every clause over a finite domain is decided by complete enumeration on the real functions: all 1 112 064 scalar values through text_string/decode_text_string, all 5 x 256 table entries (decode total, re-encode stable, published WinAnsi/MacRoman/PDFDoc values); multi-character strings and text extraction (also through a saved file) are bounded families; for extraction, Document::get_page_fonts is proved to collect fonts from the Resources of the page and of every ancestor, nearest first, held directly or by reference (Verus unit resources).',
                 note='std UTF-8/UTF-16 conversions trusted for the step from single characters to strings; Verus cannot reason about str, so no contract was placed on these functions')
 
 PROPS['C07'] = dict(level='proof', steps=[V('reader'), V('writer'), E3('c07-histories')],
@@ -88,8 +88,8 @@ PROPS['C11'] = dict(level='other', steps=[V('ids'), E3('c11-edits')],
 
 PROPS['C12'] = dict(level='proof', steps=[V('pages'), E3('c12-pages')],
                 title='Page enumeration is the depth-first order of the page tree',
-                technique='Verus contract on PageTreeIter::next (termination measure, only-Page postcondition, stack bound); bounded-exhaustive: all page trees <= 7 nodes (thorough 9) x id layouts x Kids holdings, deep/wide patterns, malformed graphs and kinds, against the depth-first order computed from the tree shape',
-                text='proved for every object graph, cyclic or not (Verus): PageTreeIter::next terminates (lexicographic measure iter_limit, stack length), yields only ids whose dictionary has /Type /Page, never raises the budget and keeps its explicit stack within PAGE_TREE_DEPTH_LIMIT. That the order is the depth-first order of the tree is decided on the enumerated trees only (bounded).',
+                technique='Verus contract on PageTreeIter::next (one step of the walk written as a spec function, termination measure, only-Page postcondition, stack bound) and the theorem that repeated steps yield the pre-order listing of the Page leaves for every tree within the iterator budgets; bounded-exhaustive: all page trees <= 7 nodes (thorough 9) x id layouts x Kids holdings, deep/wide patterns, malformed graphs and kinds, against the depth-first order computed from the tree shape',
+                text='proved for every object graph, cyclic or not (Verus): PageTreeIter::next terminates (lexicographic measure iter_limit, stack length), yields only ids whose dictionary has /Type /Page, never raises the budget, keeps its explicit stack within PAGE_TREE_DEPTH_LIMIT, and is exactly one step of next_spec (units/pages/spec.rs). For every page tree whose nesting stays within PAGE_TREE_DEPTH_LIMIT and whose number of kids stays within iter_limit, of any size and shape, the ids yielded by repeated calls are the /Type /Page leaves in depth-first order (theorem_page_order, units/pages/order.rs, by induction over depth and sibling lists). Trees beyond those budgets, graphs that are not trees, id layouts, Kids held behind references and the reload path are decided on the enumerated family only (bounded).',
                 note='Document::get_dictionary / Dictionary::get_type / PageTreeIter::kids enter as callee contracts (shims); while-let, byte-string match and @-pattern are rewritten by stated rules')
 
 PROPS['C17'] = dict(level='other', steps=[E3('c17-outline')],
@@ -104,11 +104,11 @@ PROPS['C05'] = dict(level='proof', steps=[V('crypt'), E3('c05-encrypt')],
                 text='the cipher kernels written in the crate are proved for all inputs: Rc4::new is the KSA, apply_keystream/encrypt/decrypt are the PRGA XOR and decrypt(encrypt(x)) = x; Pkcs5 raw_pad / unpad are inverse (Verus). Filter selection, key derivation, password authentication and the document walk are covered by the bounded family only.',
                 note='aes/cbc/md-5/sha2/rand assumed; encrypt_object/decrypt_object and Document::{encrypt,decrypt} are closure/iterator code not under contract')
 
-PROPS['C13'] = dict(level='other', steps=[V('pages'), E3('c13-queries')],
+PROPS['C13'] = dict(level='other', steps=[V('pages'), V('resources'), E3('c13-queries')],
                 title='Read-only queries are total on arbitrary object graphs',
                 technique='bounded-exhaustive typed-chaos documents (17 families, every key the query code reads bound to every kind / reference / cycle) evaluated in worker processes with stack, CPU and memory limits',
-                text='bounded stand-in: every read-only query on every enumerated small document returns without panic, abort, stack overflow or exceeding a CPU budget; lookups agree with an independent chain follower. The page walk under get_pages / page_iter (PageTreeIter::next) is additionally proved terminating on every graph (Verus unit pages).',
-                note='bounded; apart from PageTreeIter::next the walkers are closure/iterator code not under contract')
+                text='bounded stand-in: every read-only query on every enumerated small document returns without panic, abort, stack overflow or exceeding a CPU budget; lookups agree with an independent chain follower. The page walk under get_pages / page_iter (PageTreeIter::next) and the walks up the Parent chain (Document::get_page_resources, get_page_fonts, which extract_text uses) are additionally proved terminating on every graph, the latter with an error exactly when the chain is cyclic or leaves the document (Verus units pages, resources).',
+                note='bounded; apart from PageTreeIter::next, get_page_resources and get_page_fonts the walkers are closure/iterator code not under contract')
 
 PROPS['C15'] = dict(level='proof', steps=[V('cmap'), E3('c15-cmap')],
                 title='ToUnicode CMaps decode text as the CMap defines',
